@@ -60,4 +60,10 @@ META = {
   "note": "Trusts crypto/tls, kit/pipe segmentation (the next segment is written only after the server consumed the previous one) and the stub session's call record.",
   "technique": "property-based testing (rapid) + exhaustive split enumeration with recording stub / scripted peer and real TLS",
  },
+ "C02": {
+  "text": "Differential search between the client API call and the backend call recorded by a stub session behind a real server, over generated argument values for every implemented command and every capability configuration. Sampling, not proof.",
+  "design_ref": "DESIGN.md 3/C02",
+  "note": "Trusts the recording stub (deep copies of arguments), the semantic normal forms in harness/c02 and the documented canonicalisations; both endpoints are the real library, so a defect symmetric in encoder and decoder is only caught by C01/C04/C18.",
+  "technique": "property-based testing (rapid): differential between API call and recorded backend call through real client+server",
+ },
 }
